@@ -942,7 +942,13 @@ class ExcelCompiler:
                         self._gen_graph(ref_addr)
 
                     # the referenced cell may not have been calculated yet
-                    value = self._evaluate(ref_addr)
+                    try:
+                        value = self._evaluate(ref_addr)
+                    except Exception:
+                        if isinstance(cell, _CycleCell):
+                            # a failed calculation is not in progress anymore
+                            cell.wip = False
+                        raise
                 else:
                     self.log.info(
                         f"Cell {cell.address} evaluated to '{value}' ({type(value).__name__})")
